@@ -38,21 +38,22 @@ extern "C" unsigned int gcry_md_get_algo_dlen(int algo) { (void)algo; return H_M
 
 // ---------------------------------------------------------------- number tokens
 #define TOK_MAX 40
-static long tok_val[TOK_MAX]; static unsigned tok_n = 0;
+static __mpz_struct tok_mpz[TOK_MAX]; static unsigned tok_n = 0;       // copies of the printed integers (structural identity: mpz_set both ways)
 extern "C" void __vf_model_bound(void);
-static inline unsigned tok_new(long v) { if (tok_n >= TOK_MAX) __vf_model_bound(); unsigned k = tok_n++; tok_val[k] = v; return k; }
+static inline unsigned tok_new_mpz(mpz_srcptr v) { if (tok_n >= TOK_MAX) __vf_model_bound(); unsigned k = tok_n++; mpz_init(&tok_mpz[k]); mpz_set(&tok_mpz[k], v); return k; }
+static inline long tok_val(unsigned k) { return vfh_val(&tok_mpz[k]); }
 std::ostream& vfstub10_mpz_out(std::ostream& out, mpz_srcptr v) {
-  unsigned k = tok_new(vfh_val(v));
+  unsigned k = tok_new_mpz(v);
   out.put('@'); out.put((char)('0' + k));
   return out;
 }
-static inline std::string tok_text(long v) { unsigned k = tok_new(v); std::string s; s.push_back('@'); s.push_back((char)('0' + k)); return s; }
+static inline std::string tok_text(long v) { Z t(v); unsigned k = tok_new_mpz(t); std::string s; s.push_back('@'); s.push_back((char)('0' + k)); return s; }
 // mpz_set_str: "@k" -> table value; anything else is parsed as GMP does (digits of the base, optional '-', white space skipped)
 extern "C" int vfstub10_set_str(mpz_ptr r, const char *s, int base) {
   if (s[0] == '@') {
     unsigned k = (unsigned)((unsigned char)s[1] - '0');
     if (s[1] == 0 || s[2] != 0 || k >= tok_n) return -1;
-    mpz_set_si(r, tok_val[k]); return 0;
+    mpz_set(r, &tok_mpz[k]); return 0;
   }
   size_t i = 0; bool neg = false; unsigned long v = 0; size_t nd = 0;
   if (base < 2 || base > 62) return -1;
@@ -93,14 +94,14 @@ static void oracle(unsigned kind, unsigned char *out, size_t osize, const unsign
   size_t i = 0, tlen = (text && isize >= rawtail) ? isize - rawtail : 0;     // [0, tlen) is text, the rest raw bytes
   while (i < isize) {
     if (k >= OR_KEYMAX) __vf_model_bound();
-    if (i + 1 < tlen && in[i] == '@') { key[k++] = TOK_BASE + tok_val[(unsigned)(in[i + 1] - '0')]; i += 2; }
+    if (i + 1 < tlen && in[i] == '@' && (unsigned)(in[i + 1] - '0') < tok_n) { key[k++] = TOK_BASE + tok_val((unsigned)(in[i + 1] - '0')); i += 2; }
     else { key[k++] = (long)in[i]; i += 1; }
   }
   for (unsigned e = 0; e < OR_MAX; ++e) {           // literal bound
     if (e >= or_n) break;
-    if (or_kind[e] != kind || or_klen[e] != k || or_olen[e] != osize) continue;
-    bool same = true;
-    for (unsigned j = 0; j < k; ++j) if (or_key[e * OR_KEYMAX + j] != key[j]) same = false;
+    // no early exit on a length mismatch: the compiler would otherwise rewrite the loop bound k (concrete) into or_klen[e] (symbolic)
+    bool same = (or_kind[e] == kind) & (or_klen[e] == k) & (or_olen[e] == osize);
+    for (unsigned j = 0; j < k; ++j) same &= (or_key[e * OR_KEYMAX + j] == key[j]);
     if (same) { for (size_t j = 0; j < osize; ++j) out[j] = or_out[e * OR_OUTMAX + j]; return; }
   }
   vf_assume(or_n < OR_MAX);
@@ -135,13 +136,49 @@ extern "C" void *vfstub10_memset(void *d, int c, size_t n) { unsigned char *dd =
 extern "C" int vfstub10_memcmp(const void *a, const void *b, size_t n) { const unsigned char *x = (const unsigned char*)a, *y = (const unsigned char*)b; for (size_t i = 0; i < n; ++i) if (x[i] != y[i]) return x[i] < y[i] ? -1 : 1; return 0; }
 // choice among the four roots
 static unsigned long rm_last = 0;
+#ifdef H_ROOT      /* slice: which of the four roots sign() picks (all four are enumerated) */
+extern "C" unsigned long vfstub10_random_mod(unsigned long m) { vf_assume(m > H_ROOT); rm_last = H_ROOT; return rm_last; }
+#else
 extern "C" unsigned long vfstub10_random_mod(unsigned long m) { vf_assume(m >= 1); rm_last = vf_nondet_below(m); return rm_last; }
+#endif
+
+// ---------------------------------------------------------------- transparent memoisation of mpz_mul / mpz_mod
+// SAT back ends cannot prove that two separately bit-blasted copies of "r*r mod m" on the same r agree (measured: > 300 s for the
+// bare miter at 25 bits). mpz_mul and mpz_mod are therefore routed through a memo table: a call whose operands equal those of
+// an earlier call returns the earlier result, otherwise the result is computed by the model (mpz_addmul / mpz_fdiv_r, which
+// are the same model arithmetic). This does not change the function computed (memoisation of a pure function).
+#define SQM_MAX 24
+static __mpz_struct sqm_a[SQM_MAX], sqm_b[SQM_MAX], sqm_r[SQM_MAX]; static unsigned sqm_op[SQM_MAX]; static unsigned sqm_n = 0; static bool sqm_on = false;
+static void sqm_apply(unsigned op, mpz_ptr r, mpz_srcptr a, mpz_srcptr b) {
+  __mpz_struct A = *a, B = *b;                      // r may alias an operand
+  int sg = 1;
+  if (op == 1) { sg = mpz_sgn(&A) * mpz_sgn(&B); mpz_abs(&A, &A); mpz_abs(&B, &B); }     // a*b = sgn(a)sgn(b) |a||b|: the table holds products of magnitudes
+  else mpz_abs(&B, &B);                                                                   // mpz_mod ignores the sign of the divisor
+  bool hit = false;
+  if (sqm_on) for (unsigned e = 0; e < SQM_MAX; ++e) {
+    if (e >= sqm_n) break;
+    if (!hit && sqm_op[e] == op && mpz_cmp(&sqm_a[e], &A) == 0 && mpz_cmp(&sqm_b[e], &B) == 0) { mpz_set(r, &sqm_r[e]); hit = true; }
+  }
+  if (!hit) {
+    if (op == 1) { __mpz_struct z; mpz_init(&z); mpz_addmul(&z, &A, &B); mpz_set(r, &z); }
+    else mpz_fdiv_r(r, &A, &B);
+  }
+  if (sqm_on && sqm_n < SQM_MAX) { unsigned e = sqm_n++; sqm_op[e] = op; sqm_a[e] = A; sqm_b[e] = B; sqm_r[e] = *r; }
+  if (op == 1 && sg < 0) mpz_neg(r, r);
+}
+extern "C" void vfstub10_mul(mpz_ptr r, mpz_srcptr a, mpz_srcptr b) { sqm_apply(1, r, a, b); }
+extern "C" void vfstub10_mod(mpz_ptr r, mpz_srcptr a, mpz_srcptr d) { sqm_apply(2, r, a, d); }
 
 // ---------------------------------------------------------------- contract stubs for the square-root machinery (quick tier)
 // Contract (checked on the REAL functions for the same key by h_sqrt_contract):
-//   tmcg_mpz_qrmn_p(a,p,q) != 0  ==>  tmcg_mpz_sqrtmn_fast_all(r1..r4, a, ...) returns 0 <= r1,r3 < n, r2 = n - r1, r4 = n - r3, r_i^2 == a (mod n)
+//   tmcg_mpz_qrmn_p(a,p,q) != 0  ==>  a is a unit modulo p and q, and tmcg_mpz_sqrtmn_fast_all(r1..r4, a, ...) returns 0 <= r1,r3 < n, r2 = n - r1, r4 = n - r3, r_i^2 == a (mod n)
 static unsigned qr_calls = 0;
-extern "C" int vfstub10_qrmn_p(mpz_srcptr a, mpz_srcptr p, mpz_srcptr q) { (void)a; (void)p; (void)q; vf_assume(++qr_calls <= H_MAXDRAWS10 + 2); return (int)(vf_nondet_u8() & 1); }
+extern "C" int vfstub10_qrmn_p(mpz_srcptr a, mpz_srcptr p, mpz_srcptr q) {
+  vf_assume(++qr_calls <= H_MAXDRAWS10 + 2);
+  int b = (int)(vf_nondet_u8() & 1);
+  if (b) vf_assume(mpz_fdiv_ui(a, mpz_get_ui(p)) != 0 && mpz_fdiv_ui(a, mpz_get_ui(q)) != 0);     // a residue is a unit (Jacobi symbols +1)
+  return b;
+}
 static void contract_root(mpz_ptr r, mpz_srcptr a, mpz_srcptr n) {
   unsigned long nn = mpz_get_ui(n);
   mpz_set_ui(r, vf_nondet_below(nn));
@@ -151,19 +188,21 @@ static void contract_root(mpz_ptr r, mpz_srcptr a, mpz_srcptr n) {
 extern "C" void vfstub10_sqrt_all(mpz_ptr r1, mpz_ptr r2, mpz_ptr r3, mpz_ptr r4, mpz_srcptr a, mpz_srcptr p, mpz_srcptr q, mpz_srcptr n,
                                   mpz_srcptr up, mpz_srcptr vq, mpz_srcptr pa1d4, mpz_srcptr qa1d4) {
   (void)p; (void)q; (void)up; (void)vq; (void)pa1d4; (void)qa1d4;
-  contract_root(r1, a, n); mpz_sub(r2, n, r1);
-  contract_root(r3, a, n); mpz_sub(r4, n, r3);
+  Z t, am; mpz_mod(am, a, n);
+  contract_root(r1, a, n); mpz_sub(r2, n, r1); mpz_mul(t, r2, r2); mpz_mod(t, t, n); vf_assume(mpz_cmp(t, am) == 0);
+  contract_root(r3, a, n); mpz_sub(r4, n, r3); mpz_mul(t, r4, r4); mpz_mod(t, t, n); vf_assume(mpz_cmp(t, am) == 0);
 }
 
 // ---------------------------------------------------------------- key assembly (what generate() would leave behind, minus the prime search)
 #ifndef H_SELFSIG
 #define H_SELFSIG "sig|ID8^abcdefgh|12345678|"      /* any text whose value field has >= TMCG_KEYID_SIZE characters: key id = "ID8^12345678" */
 #endif
-static void mkkey(TMCG_SecretKey &sk, unsigned long p, unsigned long q, unsigned long y) {
+static void __attribute__((noinline)) mkkey(TMCG_SecretKey &sk, unsigned long p, unsigned long q, unsigned long y) {
   sk.name = "A"; sk.email = "a@b"; sk.type = "TMCG/RABIN_24_NIZK"; sk.nizk = ""; sk.sig = H_SELFSIG;
   mpz_set_ui(sk.p, p); mpz_set_ui(sk.q, q); mpz_mul(sk.m, sk.p, sk.q); mpz_set_ui(sk.y, y);
   bool ok = sk.precompute();                        // real code: y^-1, m^-1 mod phi, CRT coefficients, (p+1)/4, (q+1)/4
   vf_assert(ok, "precompute succeeds for the toy Blum key");
+  sqm_on = true;
 }
 // value field of a "sig|keyid|@k|" / "enc|keyid|@k|" text
 static long sig_value(const std::string &s) {
@@ -184,10 +223,13 @@ H_ENTRY(h_sqrt_contract) {
   vfh_mpz(a, H_ALO, H_AHI);
   int qr = tmcg_mpz_qrmn_p(a, sk.p, sk.q);
   if (qr) {
+    vf_assert(mpz_fdiv_ui(a, H_P) != 0 && mpz_fdiv_ui(a, H_Q) != 0, "a residue is a unit modulo p and q");
     H_TRY(tmcg_mpz_sqrtmn_fast_all(r1, r2, r3, r4, a, sk.p, sk.q, sk.m, sk.gcdext_up, sk.gcdext_vq, sk.pa1d4, sk.qa1d4));
     vf_assert(vfh_exc == 0, "sqrtmn_fast_all does not throw");
     mpz_mul(t, r1, r1); mpz_mod(t, t, sk.m); vf_assert(mpz_cmp(t, a) == 0, "root1^2 == a (mod m)");
     mpz_mul(t, r3, r3); mpz_mod(t, t, sk.m); vf_assert(mpz_cmp(t, a) == 0, "root3^2 == a (mod m)");
+    mpz_mul(t, r2, r2); mpz_mod(t, t, sk.m); vf_assert(mpz_cmp(t, a) == 0, "root2^2 == a (mod m)");
+    mpz_mul(t, r4, r4); mpz_mod(t, t, sk.m); vf_assert(mpz_cmp(t, a) == 0, "root4^2 == a (mod m)");
     vf_assert(mpz_sgn(r1) >= 0 && mpz_cmp(r1, sk.m) < 0 && mpz_sgn(r3) >= 0 && mpz_cmp(r3, sk.m) < 0, "root1, root3 in [0, m)");
     mpz_add(t, r1, r2); vf_assert(mpz_cmp(t, sk.m) == 0, "root2 == m - root1");
     mpz_add(t, r3, r4); vf_assert(mpz_cmp(t, sk.m) == 0, "root4 == m - root3");
@@ -215,3 +257,95 @@ H_ENTRY(h_sign_verify) {
   vf_assert(vfh_exc == 0 && ok2, "TMCG_SecretKey::verify accepts it as well");
   H_END();
 }
+
+// ================================================================= 2. tampering with a valid signature
+// "Honest signature" = ANY s0 in [0,m) with s0^2 != 0 (mod m) that verifies for `data` (every output of sign() is one: C10_sign_verify;
+// sign() can output nothing else because verification recomputes the padded value from s0^2). No square root is computed here.
+// Exact characterisation asserted (X(s) = low 8*mnsize bits of s^2 mod m, i.e. what verify() exports and splits into w | r* | gamma):
+//   value edit   : accepted <=> X(s1) == X(s0), unless the hash oracle is asked a NEW point and answers exactly the expected w
+//                  (the only way to accept a different padded value; probability 2^-8 per attempt at this digest size)
+//   data edit    : accepted only through a new oracle point; key id edit: always refused; other key (same key id text):
+//                  accepted only if X under the other modulus coincides or through a new oracle point; other key id: refused.
+#ifndef H_TK
+#define H_TK 0
+#endif
+#ifndef H_POS
+#define H_POS 4
+#endif
+#ifndef H_P2
+#define H_P2 4127
+#define H_Q2 4139
+#endif
+static unsigned long lowX(mpz_srcptr s, mpz_srcptr m, bool *zero) {
+  Z x; mpz_mul(x, s, s); mpz_mod(x, x, m); *zero = (mpz_sgn(x) == 0);
+  size_t mn = mpz_sizeinbase(m, 2UL) / 8;
+  return mpz_get_ui(x) & ((1UL << (8 * mn)) - 1);
+}
+H_ENTRY(h_sig_tamper) {
+  TMCG_SecretKey sk; mkkey(sk, H_P, H_Q, H_Y);
+  TMCG_PublicKey pk(sk);
+  unsigned long mm = mpz_get_ui(pk.m);
+  std::string data = H_DATA, kid = pk.keyid();
+  Z s0, s1; vfh_mpz(s0, 0, (long)mm);
+  bool z0 = false, z1 = false; unsigned long X0 = lowX(s0, pk.m, &z0);
+  vf_assume(!z0);
+  std::string sig0 = "sig|" + kid + "|" + tok_text(s0.get()) + "|";
+  bool ok0 = false; H_TRY(ok0 = pk.verify(data, sig0));
+  vf_assume(vfh_exc == 0 && ok0);                               // s0 is a valid signature on data
+  unsigned fh0 = or_fresh_h; bool ok1 = false;
+#if H_TK == 0
+  vfh_mpz(s1, -2, (long)mm + 2);
+  unsigned long X1 = lowX(s1, pk.m, &z1);
+  vf_assume(!z1);                                               // s1 = 0 (mod m): verify() exports nothing and reads an uninitialised buffer, see notes
+  std::string sig1 = "sig|" + kid + "|" + tok_text(s1.get()) + "|";
+  H_TRY(ok1 = pk.verify(data, sig1));
+  vf_assert(vfh_exc == 0, "verify returns on an arbitrary signature value");
+  vf_assert(!ok1 || X1 == X0 || or_fresh_h != fh0, "another value is accepted only if it squares to the same padded value (or the oracle answers a new point with the expected digest)");
+  vf_assert(X1 != X0 || ok1, "every value whose square has the same padded value is accepted (s0 itself, -s0, the other roots)");
+  { Z n0; mpz_neg(n0, s0); vf_assert(mpz_cmp(s1, n0) != 0 || ok1, "the negated root -s0 is accepted"); }
+#elif H_TK == 1
+  std::string data1 = data; unsigned char c = vf_nondet_u8(); vf_assume(c != (unsigned char)data[H_POS % (sizeof(H_DATA) - 1)]);
+  data1[H_POS % (sizeof(H_DATA) - 1)] = (char)c;
+  H_TRY(ok1 = pk.verify(data1, sig0));
+  vf_assert(vfh_exc == 0, "verify returns");
+  vf_assert(!ok1 || or_fresh_h != fh0, "the same signature on other data is accepted only if the oracle answers the new point with the expected digest");
+#else
+  // key id edits are CONCRETE (a symbolic character in the parsed text makes every later string length symbolic: out of memory at 6 GB);
+  // the signature value stays symbolic. Every position of "ID8^12345678" replaced by another character, '|' and '^' injected,
+  // one character dropped / appended, and a key whose self-signature (hence key id) differs.
+  static const unsigned poss[] = { 4, 11 };
+  for (unsigned pi = 0; pi < 2; ++pi) {
+    unsigned pos = poss[pi];
+    std::string kid1 = kid; kid1[pos] = (kid[pos] == 'Z') ? 'Y' : 'Z';
+    std::string sig1 = "sig|" + kid1 + "|" + tok_text(s0.get()) + "|";
+    H_TRY(ok1 = pk.verify(data, sig1));
+    vf_assert(vfh_exc == 0 && !ok1, "a signature carrying another key id is refused");
+  }
+  { std::string sig1 = std::string("sig|ID8^1234567|") + tok_text(s0.get()) + "|";          // announced length 8, 7 characters present
+    H_TRY(ok1 = pk.verify(data, sig1));
+    vf_assert(vfh_exc == 0 && !ok1, "a signature with a truncated key id is refused"); }
+  { std::string sig1 = std::string("sig|ID7^2345678|") + tok_text(s0.get()) + "|";          // a well-formed ABBREVIATED id of the same key
+    H_TRY(ok1 = pk.verify(data, sig1));
+    vf_assert(vfh_exc == 0 && ok1, "an abbreviated key id (last 7 characters, announced as 7) is accepted: keyid() compares the announced number of trailing characters"); }
+  TMCG_PublicKey pk3(sk); pk3.sig = "sig|ID8^abcdefgh|1234567Z|";                   // other self-signature => other key id, same modulus
+  bool ok2 = true; H_TRY(ok2 = pk3.verify(data, sig0));
+  vf_assert(vfh_exc == 0 && !ok2, "a key with another key id refuses the signature");
+#endif
+  H_END();
+}
+
+#ifdef H_DEBUG10
+H_ENTRY(h_dbg_c) { TMCG_SecretKey sk; mkkey(sk, H_P, H_Q, H_Y); TMCG_PublicKey pk(sk); std::string data = H_DATA; std::string sig = sk.sign(data); bool ok = pk.verify(data, sig); vf_assert(ok, "ok"); H_END(); }
+H_ENTRY(h_dbg_m) {
+  sqm_on = true; Z n, r, t, a, x; mpz_set_ui(n, (unsigned long)H_P * H_Q);
+  unsigned char b[3] = { vf_nondet_u8(), vf_nondet_u8(), vf_nondet_u8() }, o[8];
+  mpz_import(a, 1, -1, 3, 1, 0, b);
+  mpz_set_ui(r, vf_nondet_below(mpz_get_ui(n)));
+  mpz_mul(t, r, r); mpz_mod(t, t, n); vf_assume(mpz_cmp(t, a) == 0); vf_assume(mpz_sgn(a) != 0);
+  mpz_set(x, r); mpz_mul(x, x, x); mpz_mod(x, x, n);
+  size_t cnt = 1; mpz_export(o, &cnt, -1, 3, 1, 0, x);
+  vf_assert(o[0] == b[0] && o[1] == b[1] && o[2] == b[2], "bytes");
+  H_END(); }
+H_ENTRY(h_dbg_a) { TMCG_SecretKey sk; mkkey(sk, H_P, H_Q, H_Y); TMCG_PublicKey pk(sk); std::string k = pk.keyid(8); vf_assert(k == "ID8^12345678", "keyid"); H_END(); }
+H_ENTRY(h_dbg_b) { TMCG_SecretKey sk; mkkey(sk, H_P, H_Q, H_Y); std::string data = H_DATA, sig; H_TRY(sig = sk.sign(data)); vf_assert(sig.length() == 20, "len"); vf_assert(sig == "sig|ID8^12345678|@0|", "content"); H_END(); }
+#endif
